@@ -1,6 +1,6 @@
 (** split_dendrogram (sknetwork/hierarchy/postprocess.py) returns two valid dendrograms that agree with the
     full dendrogram restricted to each side (property C07). *)
-From Coq Require Import Permutation Lia.
+From Coq Require Import Permutation Sorted Lia.
 From Coq Require FinFun.
 From SKN Require Import Base.Util Model.Dendrogram Model.Cuts Model.Hierarchy Proofs.CutsProofs Proofs.HierarchyBase.
 Set Warnings "-notation-overridden".
@@ -66,10 +66,10 @@ Lemma alookup_init0 {A} (f : nat -> A) lo c x y :
   alookup x (map (fun i => (lo + i, f i)) (seq 0 c)) = Some y <-> (lo <= x /\ x < lo + c /\ y = f (x - lo)).
 Proof.
   rewrite alookup_init.
-  destruct (Nat.leb_spec (lo + 0) x), (Nat.ltb_spec x (lo + 0 + c)); simpl; split; intros H;
+  destruct (Nat.leb_spec (lo + 0) x), (Nat.ltb_spec x (lo + 0 + c)); simpl; split; intros Hx;
     try discriminate; try lia.
-  - inversion H. lia.
-  - destruct H as (_ & _ & ->). reflexivity.
+  - inversion Hx. repeat split; lia.
+  - destruct Hx as (_ & _ & ->). reflexivity.
 Qed.
 
 Lemma akeys_init {A} (f : nat -> A) lo c :
@@ -182,3 +182,516 @@ Lemma rv_snoc n D lo cnt done r :
   | _, _ => []
   end.
 Proof. unfold rv. rewrite flat_map_app. simpl. rewrite app_nil_r. reflexivity. Qed.
+
+(** * split_step in normal form *)
+Lemma split_step_merge key r id sz nw R a b si sj :
+  r_left r <> r_right r ->
+  alookup (r_left r) id = Some a -> alookup (r_right r) id = Some b ->
+  alookup (r_left r) sz = Some si -> alookup (r_right r) sz = Some sj ->
+  split_step key r {| s_id := id; s_size := sz; s_new := nw; s_rows := R |} =
+  Ok {| s_id := aremove (r_right r) (aremove (r_left r) id) ++ [(key, nw)];
+        s_size := aremove (r_right r) (aremove (r_left r) sz) ++ [(key, si + sj)];
+        s_new := S nw; s_rows := R ++ [(a, b, r_height r, si + sj)] |}.
+Proof.
+  intros Hne Ha Hb Hsi Hsj. unfold split_step, amem. simpl.
+  rewrite Ha, Hb, Hsi. simpl.
+  rewrite (alookup_aremove_neq (r_right r) (r_left r)) by congruence. rewrite Hsj.
+  rewrite alookup_app, Ha.
+  rewrite alookup_aremove_neq by congruence. rewrite alookup_app, Hb.
+  rewrite (aremove_app_l _ _ _ _ Ha).
+  rewrite (aremove_app_l (r_right r) (aremove (r_left r) id) _ b)
+    by (rewrite alookup_aremove_neq by congruence; exact Hb).
+  reflexivity.
+Qed.
+
+Lemma split_step_left key r id sz nw R a si :
+  alookup (r_left r) id = Some a -> alookup (r_right r) id = None -> alookup (r_left r) sz = Some si ->
+  split_step key r {| s_id := id; s_size := sz; s_new := nw; s_rows := R |} =
+  Ok {| s_id := aremove (r_left r) id ++ [(key, a)]; s_size := aremove (r_left r) sz ++ [(key, si)];
+        s_new := nw; s_rows := R |}.
+Proof. intros Ha Hb Hsi. unfold split_step, amem. simpl. rewrite Ha, Hb, Hsi. reflexivity. Qed.
+
+Lemma split_step_right key r id sz nw R b sj :
+  alookup (r_left r) id = None -> alookup (r_right r) id = Some b -> alookup (r_right r) sz = Some sj ->
+  split_step key r {| s_id := id; s_size := sz; s_new := nw; s_rows := R |} =
+  Ok {| s_id := aremove (r_right r) id ++ [(key, b)]; s_size := aremove (r_right r) sz ++ [(key, sj)];
+        s_new := nw; s_rows := R |}.
+Proof. intros Ha Hb Hsj. unfold split_step, amem. simpl. rewrite Ha, Hb, Hsj. reflexivity. Qed.
+
+Lemma split_step_skip key r st :
+  alookup (r_left r) (s_id st) = None -> alookup (r_right r) (s_id st) = None -> split_step key r st = Ok st.
+Proof. intros Ha Hb. unfold split_step, amem. rewrite Ha, Hb. reflexivity. Qed.
+
+(** * The loop invariant
+
+    After the first [t] rows of D ([C]: their children, [V]: the restricted view of these rows). *)
+Record sinv (n : nat) (D : dendrogram) (lo cnt t : nat) (C : list nat) (V : list view) (st : sstate) : Prop := {
+  i_ndid : NoDup (akeys (s_id st));
+  i_ndsz : NoDup (akeys (s_size st));
+  i_ne : s_id st <> [];
+  i_keys : forall x, In x (akeys (s_id st)) <-> (x < n + t /\ ~ In x C /\ SL n D lo cnt x <> []);
+  i_dead : forall c, In c C -> c < n + t;
+  i_szk : forall x, In x (akeys (s_size st)) -> In x (akeys (s_id st));
+  i_sz : forall x y, alookup x (s_id st) = Some y -> alookup x (s_size st) = Some (csize cnt (s_rows st) y);
+  i_val : forall x y, alookup x (s_id st) = Some y ->
+            y < cnt + length (s_rows st) /\ ~ In y (flat_map children (s_rows st)) /\
+            leaves cnt (s_rows st) y = SL n D lo cnt x;
+  i_inj : forall x x' y, alookup x (s_id st) = Some y -> alookup x' (s_id st) = Some y -> x = x';
+  i_new : s_new st = cnt + length (s_rows st);
+  i_Rnd : NoDup (flat_map children (s_rows st));
+  i_Rlt : ids_lt cnt (s_rows st);
+  i_Rsz : sizes_add cnt (s_rows st);
+  i_cnt : length (s_id st) + length (s_rows st) = cnt;
+  i_view : own_view cnt (s_rows st) = V }.
+
+Lemma sinv_init n D lo cnt : 1 <= cnt -> lo + cnt <= n -> sinv n D lo cnt 0 [] [] (split_init lo cnt).
+Proof.
+  intros Hc Hn. unfold split_init. split; simpl.
+  - rewrite akeys_init. apply NoDup_shift.
+  - rewrite akeys_init. apply NoDup_shift.
+  - destruct cnt; [lia|discriminate].
+  - intros x. rewrite akeys_init, In_shift. split.
+    + intros [H1 H2]. split; [lia|]. split; [tauto|]. rewrite SL_leaf_in by lia. discriminate.
+    + intros (H1 & _ & H2). apply SL_leaf_ne in H2; lia.
+  - tauto.
+  - intros x. now rewrite !akeys_init.
+  - intros x y H. apply alookup_init0 in H. destruct H as (H1 & H2 & ->).
+    rewrite csize_leaf by lia. apply alookup_init0. repeat split; lia.
+  - intros x y H. apply alookup_init0 in H. destruct H as (H1 & H2 & ->).
+    split; [lia|]. split; [tauto|]. rewrite leaves_leaf by lia. rewrite SL_leaf_in by lia. reflexivity.
+  - intros x x' y H H'. apply alookup_init0 in H. apply alookup_init0 in H'. lia.
+  - lia.
+  - constructor.
+  - intros t r Hr. destruct t; discriminate.
+  - intros t r Hr. destruct t; discriminate.
+  - rewrite map_length, seq_length. lia.
+  - reflexivity.
+Qed.
+
+(** ** Neither child meets the side *)
+Lemma inv_skip n D lo cnt t C V st i j C' :
+  sinv n D lo cnt t C V st ->
+  i < n + t -> j < n + t ->
+  SL n D lo cnt i = [] -> SL n D lo cnt j = [] -> SL n D lo cnt (n + t) = [] ->
+  (forall x, In x C' <-> In x C \/ x = i \/ x = j) ->
+  sinv n D lo cnt (S t) C' V st.
+Proof.
+  intros [Hndid Hndsz Hne Hkeys Hdead Hszk Hsz Hval Hinj Hnew HRnd HRlt HRsz Hcnt Hview] Hi Hj Ei Ej Ek HC'.
+  split; try assumption.
+  - intros x. rewrite Hkeys, HC'. split.
+    + intros (H1 & H2 & H3). split; [lia|]. split; [|assumption].
+      intros [Hc|[-> | ->]]; [tauto | now apply H3 | now apply H3].
+    + intros (H1 & H2 & H3). destruct (Nat.eq_dec x (n + t)) as [->|Hx]; [now elim H3|].
+      split; [lia|]. split; [tauto|assumption].
+  - intros c Hc. apply HC' in Hc. destruct Hc as [Hc|[-> | ->]]; [apply Hdead in Hc; lia | lia | lia].
+Qed.
+
+(** ** Exactly one child [c] meets the side: its entry is renamed *)
+Lemma inv_rename n D lo cnt t C V id sz nw R c c' C' :
+  sinv n D lo cnt t C V {| s_id := id; s_size := sz; s_new := nw; s_rows := R |} ->
+  c < n + t -> c' < n + t -> ~ In c C -> ~ In c' C ->
+  SL n D lo cnt c <> [] -> SL n D lo cnt c' = [] -> SL n D lo cnt (n + t) = SL n D lo cnt c ->
+  (forall x, In x C' <-> In x C \/ x = c \/ x = c') ->
+  exists a, alookup c id = Some a /\ alookup c' id = None /\ alookup c sz = Some (csize cnt R a) /\
+    sinv n D lo cnt (S t) C' V
+      {| s_id := aremove c id ++ [(n + t, a)]; s_size := aremove c sz ++ [(n + t, csize cnt R a)];
+         s_new := nw; s_rows := R |}.
+Proof.
+  intros [Hndid Hndsz Hne Hkeys Hdead Hszk Hsz Hval Hinj Hnew HRnd HRlt HRsz Hcnt Hview]
+         Hc Hc' HnC HnC' Ec Ec' Ek HC'. simpl in *.
+  assert (Hkc : In c (akeys id)) by (apply Hkeys; tauto).
+  destruct (In_key_alookup _ _ Hkc) as [a Ha].
+  assert (Hnc' : alookup c' id = None).
+  { apply alookup_None. intros Hk. apply Hkeys in Hk. tauto. }
+  assert (Hsa := Hsz _ _ Ha).
+  assert (Hkid : ~ In (n + t) (akeys id)) by (intros Hk; apply Hkeys in Hk; lia).
+  assert (Hksz : ~ In (n + t) (akeys sz)) by (intros Hk; apply Hszk in Hk; tauto).
+  assert (Hlk : forall x y, alookup x (aremove c id ++ [(n + t, a)]) = Some y ->
+                            (x <> c /\ alookup x id = Some y) \/ (x = n + t /\ y = a)).
+  { intros x y H. apply alookup_snoc_inv in H. destruct H as [H|H]; [left|now right].
+    now apply alookup_aremove_Some in H. }
+  exists a. split; [exact Ha|]. split; [exact Hnc'|]. split; [exact Hsa|].
+  split; simpl; try assumption.
+  - apply NoDup_akeys_app_fresh; [now apply NoDup_aremove|]. intros Hk. apply akeys_aremove_In in Hk. tauto.
+  - apply NoDup_akeys_app_fresh; [now apply NoDup_aremove|]. intros Hk. apply akeys_aremove_In in Hk. tauto.
+  - intros E. apply app_eq_nil in E. destruct E; discriminate.
+  - intros x. rewrite akeys_app, in_app_iff, akeys_aremove_iff, Hkeys, HC' by assumption. simpl. split.
+    + intros [[(H1 & H2 & H3) H4]|[<-|[]]].
+      * split; [lia|]. split; [|assumption]. intros [Hx|[-> | ->]]; [tauto | congruence | now apply H3].
+      * split; [lia|]. split; [|now rewrite Ek]. intros [Hx|[Hx|Hx]]; [apply Hdead in Hx; lia | lia | lia].
+    + intros (H1 & H2 & H3). destruct (Nat.eq_dec x (n + t)) as [->|Hx]; [right; now left|].
+      left. split; [|intros ->; apply H2; tauto]. split; [lia|]. split; [tauto|assumption].
+  - intros x Hx. apply HC' in Hx. destruct Hx as [Hx|[-> | ->]]; [apply Hdead in Hx; lia | lia | lia].
+  - intros x. rewrite !akeys_app, !in_app_iff, !akeys_aremove_iff by assumption. simpl.
+    intros [[H1 H2]|H]; [left; split; [now apply Hszk|assumption] | now right].
+  - intros x y H. apply Hlk in H. destruct H as [[Hx H]|[-> ->]].
+    + apply alookup_app_old. rewrite alookup_aremove_neq by assumption. now apply Hsz.
+    + apply alookup_snoc_new. intros Hk. apply akeys_aremove_In in Hk. tauto.
+  - intros x y H. apply Hlk in H. destruct H as [[Hx H]|[-> ->]].
+    + now apply Hval.
+    + rewrite Ek. now apply Hval.
+  - intros x x' y H H'. apply Hlk in H. apply Hlk in H'.
+    destruct H as [[Hx H]|[-> ->]], H' as [[Hx' H']|[-> Ey]].
+    + now apply (Hinj x x' y).
+    + subst y. elim Hx. now apply (Hinj x c a).
+    + elim Hx'. now apply (Hinj x' c a).
+    + reflexivity.
+  - rewrite app_length. simpl. assert (E := aremove_length _ _ _ Ha). lia.
+Qed.
+
+(** ** Both children meet the side: a merge of the side's dendrogram *)
+Lemma inv_merge n D lo cnt t C V id sz nw R i j h C' :
+  sinv n D lo cnt t C V {| s_id := id; s_size := sz; s_new := nw; s_rows := R |} ->
+  i <> j -> i < n + t -> j < n + t -> ~ In i C -> ~ In j C ->
+  SL n D lo cnt i <> [] -> SL n D lo cnt j <> [] ->
+  SL n D lo cnt (n + t) = SL n D lo cnt i ++ SL n D lo cnt j ->
+  (forall x, In x C' <-> In x C \/ x = i \/ x = j) ->
+  exists a b, alookup i id = Some a /\ alookup j id = Some b /\
+    alookup i sz = Some (csize cnt R a) /\ alookup j sz = Some (csize cnt R b) /\
+    sinv n D lo cnt (S t) C' (V ++ [(SL n D lo cnt i, SL n D lo cnt j, h)])
+      {| s_id := aremove j (aremove i id) ++ [(n + t, nw)];
+         s_size := aremove j (aremove i sz) ++ [(n + t, csize cnt R a + csize cnt R b)];
+         s_new := S nw;
+         s_rows := R ++ [(a, b, h, csize cnt R a + csize cnt R b)] |}.
+Proof.
+  intros [Hndid Hndsz Hne Hkeys Hdead Hszk Hsz Hval Hinj Hnew HRnd HRlt HRsz Hcnt Hview]
+         Hij Hi Hj HnCi HnCj Ei Ej Ek HC'. simpl in *.
+  assert (Hki : In i (akeys id)) by (apply Hkeys; tauto).
+  assert (Hkj : In j (akeys id)) by (apply Hkeys; tauto).
+  destruct (In_key_alookup _ _ Hki) as [a Ha]. destruct (In_key_alookup _ _ Hkj) as [b Hb].
+  assert (Hsa := Hsz _ _ Ha). assert (Hsb := Hsz _ _ Hb).
+  assert (Hab : a <> b). { intros ->. apply Hij. now apply (Hinj i j b). }
+  destruct (Hval _ _ Ha) as (Hva1 & Hva2 & Hva3). destruct (Hval _ _ Hb) as (Hvb1 & Hvb2 & Hvb3).
+  assert (Hkid : ~ In (n + t) (akeys id)) by (intros Hk; apply Hkeys in Hk; lia).
+  assert (Hksz : ~ In (n + t) (akeys sz)) by (intros Hk; apply Hszk in Hk; tauto).
+  assert (Hnd1 : NoDup (akeys (aremove i id))) by now apply NoDup_aremove.
+  assert (Hnd1s : NoDup (akeys (aremove i sz))) by now apply NoDup_aremove.
+  assert (Hk2 : forall x, In x (akeys (aremove j (aremove i id))) <-> In x (akeys id) /\ x <> i /\ x <> j).
+  { intros x. rewrite !akeys_aremove_iff by assumption. tauto. }
+  assert (Hk2s : forall x, In x (akeys (aremove j (aremove i sz))) <-> In x (akeys sz) /\ x <> i /\ x <> j).
+  { intros x. rewrite !akeys_aremove_iff by assumption. tauto. }
+  assert (Hlk : forall x y, alookup x (aremove j (aremove i id) ++ [(n + t, nw)]) = Some y ->
+                            (x <> i /\ x <> j /\ alookup x id = Some y) \/ (x = n + t /\ y = nw)).
+  { intros x y H. apply alookup_snoc_inv in H. destruct H as [H|H]; [left|now right].
+    apply alookup_aremove_Some in H; [|assumption]. destruct H as [H1 H].
+    apply alookup_aremove_Some in H; [|assumption]. tauto. }
+  exists a, b. split; [exact Ha|]. split; [exact Hb|]. split; [exact Hsa|]. split; [exact Hsb|].
+  set (sa := csize cnt R a) in *. set (sb := csize cnt R b) in *.
+  set (row := (a, b, h, sa + sb)).
+  assert (HRlt' : ids_lt cnt (R ++ [row])) by (apply ids_lt_snoc; assumption).
+  assert (Hrow : nth_error (R ++ [row]) (length R) = Some row) by apply nth_error_app_length.
+  assert (Hch : forall c, In c (flat_map children R) -> c < cnt + length R) by now apply ids_lt_children_lt.
+  split; simpl.
+  - apply NoDup_akeys_app_fresh; [now apply NoDup_aremove|]. rewrite Hk2. tauto.
+  - apply NoDup_akeys_app_fresh; [now apply NoDup_aremove|]. rewrite Hk2s. tauto.
+  - intros E. apply app_eq_nil in E. destruct E; discriminate.
+  - intros x. rewrite akeys_app, in_app_iff, Hk2, Hkeys, HC'. simpl. split.
+    + intros [[(H1 & H2 & H3) [H4 H5]]|[<-|[]]].
+      * split; [lia|]. split; [|assumption]. intros [Hx|[Hx|Hx]]; [tauto | congruence | congruence].
+      * split; [lia|]. split.
+        -- intros [Hx|[Hx|Hx]]; [apply Hdead in Hx; lia | lia | lia].
+        -- rewrite Ek. intros E. apply app_eq_nil in E. tauto.
+    + intros (H1 & H2 & H3). destruct (Nat.eq_dec x (n + t)) as [->|Hx]; [right; now left|].
+      left. split; [split; [lia|]; split; [tauto|assumption]|]. split; intros ->; apply H2; tauto.
+  - intros x Hx. apply HC' in Hx. destruct Hx as [Hx|[-> | ->]]; [apply Hdead in Hx; lia | lia | lia].
+  - intros x. rewrite !akeys_app, !in_app_iff, Hk2, Hk2s. simpl.
+    intros [[H1 H2]|H]; [left; split; [now apply Hszk|assumption] | now right].
+  - intros x y H. apply Hlk in H. destruct H as [(Hx1 & Hx2 & H)|[-> ->]].
+    + destruct (Hval _ _ H) as (Hy & _).
+      rewrite csize_app by assumption.
+      apply alookup_app_old. rewrite !alookup_aremove_neq by assumption. now apply Hsz.
+    + rewrite Hnew. rewrite (csize_node cnt (R ++ [row]) (length R) row Hrow). unfold row, r_size. simpl.
+      apply alookup_snoc_new. rewrite Hk2s. tauto.
+  - intros x y H. apply Hlk in H. destruct H as [(Hx1 & Hx2 & H)|[-> ->]].
+    + destruct (Hval _ _ H) as (Hy1 & Hy2 & Hy3). split; [rewrite app_length; simpl; lia|]. split.
+      * rewrite flat_map_app, in_app_iff. simpl. unfold r_left, r_right. simpl.
+        intros [Hc|[Hc|[Hc|[]]]]; [tauto | subst y; apply Hx1; now apply (Hinj x i a) |
+                                   subst y; apply Hx2; now apply (Hinj x j b)].
+      * rewrite leaves_app_prefix by assumption. exact Hy3.
+    + rewrite Hnew. split; [rewrite app_length; simpl; lia|]. split.
+      * rewrite flat_map_app, in_app_iff. simpl. unfold r_left, r_right. simpl.
+        intros [Hc|[Hc|[Hc|[]]]]; [apply Hch in Hc; lia | lia | lia].
+      * rewrite (leaves_node cnt (R ++ [row]) (length R) row HRlt' Hrow).
+        unfold row, r_left, r_right. simpl. fold row.
+        rewrite !leaves_app_prefix by assumption. now rewrite Hva3, Hvb3, Ek.
+  - intros x x' y H H'. apply Hlk in H. apply Hlk in H'.
+    destruct H as [(Hx1 & Hx2 & H)|[-> Ey]], H' as [(Hx1' & Hx2' & H')|[-> Ey']].
+    + now apply (Hinj x x' y).
+    + subst y. destruct (Hval _ _ H) as (Hy & _). lia.
+    + subst y. destruct (Hval _ _ H') as (Hy & _). lia.
+    + reflexivity.
+  - rewrite app_length. simpl. lia.
+  - rewrite flat_map_app. simpl. unfold r_left, r_right. simpl.
+    replace (flat_map children R ++ [a; b]) with ((flat_map children R ++ [a]) ++ [b])
+      by (rewrite <- app_assoc; reflexivity).
+    apply NoDup_snoc; [now apply NoDup_snoc|]. rewrite in_app_iff. simpl. intros [Hc|[Hc|[]]]; tauto.
+  - exact HRlt'.
+  - intros t0 r0 Hr0. destruct (Nat.lt_ge_cases t0 (length R)) as [Hlt|Hge].
+    + rewrite nth_error_app1 in Hr0 by assumption. destruct (HRlt _ _ Hr0) as [H1 H2].
+      rewrite !csize_app by lia. now apply (HRsz t0).
+    + assert (Ht0 : t0 < length (R ++ [row])) by (apply nth_error_Some; congruence).
+      rewrite app_length in Ht0. simpl in Ht0. assert (t0 = length R) by lia. subst t0.
+      rewrite Hrow in Hr0. inversion Hr0; subst r0. unfold row, r_size, r_left, r_right. simpl.
+      rewrite !csize_app by assumption. reflexivity.
+  - rewrite !app_length. simpl.
+    assert (E1 := aremove_length _ _ _ Ha).
+    assert (Hb' : alookup j (aremove i id) = Some b) by (rewrite alookup_aremove_neq by congruence; exact Hb).
+    assert (E2 := aremove_length _ _ _ Hb'). lia.
+  - change (own_view cnt (R ++ [row]) = V ++ [(SL n D lo cnt i, SL n D lo cnt j, h)]).
+    rewrite own_view_snoc by exact HRlt'. unfold row, r_left, r_right, r_height. simpl.
+    now rewrite Hview, Hva3, Hvb3.
+Qed.
+
+(** * One step of the loop on a valid dendrogram *)
+Lemma split_step_inv n D lo cnt done r rows st :
+  valid n D = true -> D = done ++ r :: rows ->
+  sinv n D lo cnt (length done) (flat_map children done) (rv n D lo cnt done) st ->
+  exists st', split_step (n + length done) r st = Ok st' /\
+    sinv n D lo cnt (S (length done)) (flat_map children (done ++ [r])) (rv n D lo cnt (done ++ [r])) st'.
+Proof.
+  intros Hv HD Hinv.
+  assert (Hids := valid_ids_lt n D Hv).
+  destruct (valid_rows n D Hv) as [_ Hrows].
+  assert (Hrow : nth_error D (length done) = Some r) by (rewrite HD; apply nth_error_app_length).
+  destruct (Hrows _ _ Hrow) as (Hne & Hl & Hr & Hnl & Hnr).
+  rewrite HD, firstn_app_length in Hnl, Hnr.
+  assert (Ek := SL_node n D lo cnt _ _ Hids Hrow).
+  assert (HC' : forall x, In x (flat_map children (done ++ [r])) <->
+                          In x (flat_map children done) \/ x = r_left r \/ x = r_right r).
+  { intros x. rewrite flat_map_app, in_app_iff. simpl. intuition. }
+  rewrite rv_snoc. destruct st as [id sz nw R].
+  destruct (SL n D lo cnt (r_left r)) as [|u lu] eqn:Ei; destruct (SL n D lo cnt (r_right r)) as [|w lw] eqn:Ej.
+  - (* neither *)
+    simpl in Ek. rewrite app_nil_r.
+    assert (Ha : alookup (r_left r) id = None).
+    { apply alookup_None. intros Hk. apply (i_keys _ _ _ _ _ _ _ _ Hinv) in Hk. tauto. }
+    assert (Hb : alookup (r_right r) id = None).
+    { apply alookup_None. intros Hk. apply (i_keys _ _ _ _ _ _ _ _ Hinv) in Hk. tauto. }
+    eexists. split; [apply split_step_skip; assumption|].
+    apply (inv_skip n D lo cnt (length done) (flat_map children done) _ _ (r_left r) (r_right r)); assumption.
+  - (* right only *)
+    simpl in Ek. rewrite app_nil_r.
+    destruct (inv_rename n D lo cnt (length done) _ _ id sz nw R (r_right r) (r_left r)
+                (flat_map children (done ++ [r])) Hinv) as (b & Hb & Ha & Hsb & Hinv'); try assumption.
+    + rewrite Ej. discriminate.
+    + now rewrite Ej.
+    + intros x. rewrite HC'. tauto.
+    + eexists. split; [apply (split_step_right _ _ _ _ _ _ b (csize cnt R b)); assumption|exact Hinv'].
+  - (* left only *)
+    rewrite app_nil_r in Ek. rewrite app_nil_r.
+    destruct (inv_rename n D lo cnt (length done) _ _ id sz nw R (r_left r) (r_right r)
+                (flat_map children (done ++ [r])) Hinv) as (a & Ha & Hb & Hsa & Hinv'); try assumption.
+    + rewrite Ei. discriminate.
+    + now rewrite Ei.
+    + eexists. split; [apply (split_step_left _ _ _ _ _ _ a (csize cnt R a)); assumption|exact Hinv'].
+  - (* both *)
+    destruct (inv_merge n D lo cnt (length done) _ _ id sz nw R (r_left r) (r_right r) (r_height r)
+                (flat_map children (done ++ [r])) Hinv) as (a & b & Ha & Hb & Hsa & Hsb & Hinv'); try assumption.
+    + rewrite Ei. discriminate.
+    + rewrite Ej. discriminate.
+    + now rewrite Ei, Ej.
+    + eexists. split; [apply (split_step_merge _ _ _ _ _ _ a b (csize cnt R a) (csize cnt R b)); assumption|].
+      rewrite Ei, Ej in Hinv'. exact Hinv'.
+Qed.
+
+Lemma split_loop_inv n D lo cnt : valid n D = true ->
+  forall rows done st, D = done ++ rows ->
+    sinv n D lo cnt (length done) (flat_map children done) (rv n D lo cnt done) st ->
+    exists st', split_loop (n + length done) rows st = Ok st' /\
+      sinv n D lo cnt (length D) (flat_map children D) (rv n D lo cnt D) st'.
+Proof.
+  intros Hv. induction rows as [|r rows IH]; intros done st HD Hinv.
+  - rewrite app_nil_r in HD. subst done. exists st. split; [reflexivity|assumption].
+  - destruct (split_step_inv n D lo cnt done r rows st Hv HD Hinv) as (st1 & Hstep & Hinv1).
+    simpl. rewrite Hstep.
+    specialize (IH (done ++ [r]) st1). rewrite app_length in IH. simpl in IH.
+    replace (n + (length done + 1)) with (S (n + length done)) in IH by lia.
+    replace (length done + 1) with (S (length done)) in IH by lia.
+    apply IH; [rewrite <- app_assoc; exact HD | exact Hinv1].
+Qed.
+
+(** Exactly one cluster is live at the end of a valid dendrogram. *)
+Lemma live_unique n D l : valid n D = true -> NoDup l ->
+  (forall x, In x l -> x < n + length D /\ ~ In x (flat_map children D)) -> length l <= 1.
+Proof.
+  intros Hv Hnd Hl. assert (Hv' := Hv). unfold valid, validw in Hv'.
+  apply andb_true_iff in Hv'. destruct Hv' as [Hv' _]. apply andb_true_iff in Hv'. destruct Hv' as [_ Hrun].
+  rewrite repeat_length in Hrun.
+  destruct (valid_run n D (init_live (repeat 1 n))) as [live'|] eqn:E; [|discriminate].
+  assert (Hl0 : linv n [] (init_live (repeat 1 n))).
+  { assert (X := linv_init (repeat 1 n)). now rewrite repeat_length in X. }
+  destruct (valid_run_rows n D D [] _ live' eq_refl Hl0) as [_ (Hndk & Hkeys & _)].
+  { simpl. now rewrite Nat.add_0_r. }
+  destruct (valid_run_shape _ _ _ _ E) as (_ & Hlen & _).
+  unfold init_live in Hlen. rewrite repeat_length, combine_length, seq_length, repeat_length, Nat.min_id in Hlen.
+  destruct (valid_rows n D Hv) as [HlenD _].
+  assert (Hincl : incl l (akeys live')) by (intros x Hx; apply Hkeys; now apply Hl).
+  apply (NoDup_incl_length Hnd) in Hincl. unfold akeys in Hincl. rewrite map_length in Hincl. lia.
+Qed.
+
+Lemma split_side_inv D n1 n2 lo cnt :
+  valid (n1 + n2) D = true -> 1 <= cnt -> lo + cnt <= n1 + n2 ->
+  exists st, split_side D n1 n2 lo cnt = Ok (s_rows st) /\
+    sinv (n1 + n2) D lo cnt (length D) (flat_map children D) (restrict_view (n1 + n2) D lo cnt) st.
+Proof.
+  intros Hv Hc Hlo. destruct (valid_rows _ D Hv) as [Hlen _].
+  destruct (split_loop_inv (n1 + n2) D lo cnt Hv D [] (split_init lo cnt) eq_refl) as (st & Hloop & Hinv).
+  { simpl. apply sinv_init; assumption. }
+  simpl in Hloop. rewrite Nat.add_0_r in Hloop.
+  exists st. split; [|exact Hinv].
+  unfold split_side.
+  replace (Nat.ltb (length D) (n1 + n2 - 1)) with false by (symmetry; apply Nat.ltb_ge; lia).
+  rewrite firstn_all2 by lia. now rewrite Hloop.
+Qed.
+
+Lemma sinv_final_valid n D lo cnt V st : valid n D = true ->
+  sinv n D lo cnt (length D) (flat_map children D) V st -> valid cnt (s_rows st) = true.
+Proof.
+  intros Hv Hinv. apply wf_valid. split.
+  - assert (H1 : length (akeys (s_id st)) <= 1).
+    { apply (live_unique n D); [assumption | apply (i_ndid _ _ _ _ _ _ _ _ Hinv) |].
+      intros x Hx. apply (i_keys _ _ _ _ _ _ _ _ Hinv) in Hx. tauto. }
+    unfold akeys in H1. rewrite map_length in H1.
+    assert (H2 := i_ne _ _ _ _ _ _ _ _ Hinv). assert (H3 := i_cnt _ _ _ _ _ _ _ _ Hinv).
+    destruct (s_id st) as [|p q]; [congruence|]. simpl in *. lia.
+  - apply (i_Rnd _ _ _ _ _ _ _ _ Hinv).
+  - apply (i_Rlt _ _ _ _ _ _ _ _ Hinv).
+  - apply (i_Rsz _ _ _ _ _ _ _ _ Hinv).
+Qed.
+
+(** * Main theorems *)
+Theorem split_side_valid : forall D n1 n2 lo cnt,
+  valid (n1 + n2) D = true -> 1 <= cnt -> lo + cnt <= n1 + n2 ->
+  exists R, split_side D n1 n2 lo cnt = Ok R /\ valid cnt R = true.
+Proof.
+  intros D n1 n2 lo cnt Hv Hc Hlo.
+  destruct (split_side_inv D n1 n2 lo cnt Hv Hc Hlo) as (st & Hs & Hinv).
+  exists (s_rows st). split; [exact Hs|]. exact (sinv_final_valid _ _ _ _ _ _ Hv Hinv).
+Qed.
+
+Theorem split_side_agrees : forall D n1 n2 lo cnt R,
+  valid (n1 + n2) D = true -> 1 <= cnt -> lo + cnt <= n1 + n2 ->
+  split_side D n1 n2 lo cnt = Ok R ->
+  own_view cnt R = restrict_view (n1 + n2) D lo cnt.
+Proof.
+  intros D n1 n2 lo cnt R Hv Hc Hlo HR.
+  destruct (split_side_inv D n1 n2 lo cnt Hv Hc Hlo) as (st & Hs & Hinv).
+  rewrite Hs in HR. inversion HR; subst R. apply (i_view _ _ _ _ _ _ _ _ Hinv).
+Qed.
+
+(** * Heights: the rows of a side are a sub-sequence of the rows of the full dendrogram *)
+Inductive sublist {A : Type} : list A -> list A -> Prop :=
+| sub_nil : sublist [] []
+| sub_skip : forall l1 l2 x, sublist l1 l2 -> sublist l1 (x :: l2)
+| sub_keep : forall l1 l2 x, sublist l1 l2 -> sublist (x :: l1) (x :: l2).
+
+Lemma sublist_In {A} (l1 l2 : list A) : sublist l1 l2 -> forall x, In x l1 -> In x l2.
+Proof.
+  induction 1 as [|l1 l2 y Hs IH|l1 l2 y Hs IH]; intros x Hx; simpl in *; [tauto | right; now apply IH |].
+  destruct Hx as [Hx|Hx]; [now left | right; now apply IH].
+Qed.
+
+Definition qleb (a b : Q) : Prop := Qle_bool a b = true.
+
+Lemma qleb_trans a b c : qleb a b -> qleb b c -> qleb a c.
+Proof. unfold qleb. rewrite !Qle_bool_iff. apply Qle_trans. Qed.
+
+Lemma sortedq_SS l : sortedq l = true <-> StronglySorted qleb l.
+Proof.
+  induction l as [|a l IH]; [split; [constructor | reflexivity]|].
+  destruct l as [|b t].
+  - split; [intros _; constructor; constructor | reflexivity].
+  - change (sortedq (a :: b :: t)) with (Qle_bool a b && sortedq (b :: t)).
+    rewrite andb_true_iff, IH. split.
+    + intros [Hab Hs]. constructor; [exact Hs|]. constructor; [exact Hab|].
+      apply StronglySorted_inv in Hs. destruct Hs as [_ Hf].
+      eapply Forall_impl; [|exact Hf]. intros c Hc. now apply (qleb_trans a b c).
+    + intros Hs. apply StronglySorted_inv in Hs. destruct Hs as [Hs Hf]. split; [|exact Hs].
+      now inversion Hf.
+Qed.
+
+Lemma SS_sublist (l1 l2 : list Q) : sublist l1 l2 -> StronglySorted qleb l2 -> StronglySorted qleb l1.
+Proof.
+  induction 1 as [|l1 l2 y Hs IH|l1 l2 y Hs IH]; intros HS.
+  - constructor.
+  - apply StronglySorted_inv in HS. now apply IH.
+  - apply StronglySorted_inv in HS. destruct HS as [HS Hf]. constructor; [now apply IH|].
+    rewrite Forall_forall in *. intros x Hx. apply Hf. now apply (sublist_In l1 l2).
+Qed.
+
+Lemma split_step_rows key r st st' : split_step key r st = Ok st' ->
+  s_rows st' = s_rows st \/ exists a b s, s_rows st' = s_rows st ++ [(a, b, r_height r, s)].
+Proof.
+  unfold split_step. intros H.
+  destruct (amem (r_left r) (s_id st) && amem (r_right r) (s_id st)).
+  - destruct (alookup (r_left r) (s_size st)) as [si|]; [|discriminate].
+    destruct (alookup (r_right r) (aremove (r_left r) (s_size st))) as [sj|]; [|discriminate].
+    destruct (alookup (r_left r) (s_id st ++ [(key, s_new st)])) as [a|]; [|discriminate].
+    destruct (alookup (r_right r) (aremove (r_left r) (s_id st ++ [(key, s_new st)]))) as [b|]; [|discriminate].
+    inversion H. simpl. right. now exists a, b, (si + sj).
+  - destruct (amem (r_left r) (s_id st)).
+    + destruct (alookup (r_left r) (s_size st)); [|discriminate].
+      destruct (alookup (r_left r) (s_id st)); [|discriminate]. inversion H. now left.
+    + destruct (amem (r_right r) (s_id st)).
+      * destruct (alookup (r_right r) (s_size st)); [|discriminate].
+        destruct (alookup (r_right r) (s_id st)); [|discriminate]. inversion H. now left.
+      * inversion H. now left.
+Qed.
+
+Lemma split_loop_heights : forall rows key st st', split_loop key rows st = Ok st' ->
+  exists hs, heights (s_rows st') = heights (s_rows st) ++ hs /\ sublist hs (heights rows).
+Proof.
+  induction rows as [|r rows IH]; intros key st st' H; simpl in H.
+  - inversion H. exists []. rewrite app_nil_r. split; [reflexivity|constructor].
+  - destruct (split_step key r st) as [st1|e] eqn:E; [|discriminate].
+    destruct (IH _ _ _ H) as (hs & Hh & Hsub). apply split_step_rows in E.
+    destruct E as [E|(a & b & s & E)]; rewrite E in Hh.
+    + exists hs. split; [exact Hh|]. simpl. now constructor.
+    + exists (r_height r :: hs). split.
+      * rewrite Hh. unfold heights. rewrite map_app, <- app_assoc. reflexivity.
+      * simpl. now constructor.
+Qed.
+
+Theorem split_side_sorted : forall D n1 n2 lo cnt R,
+  valid (n1 + n2) D = true -> 1 <= cnt -> lo + cnt <= n1 + n2 ->
+  split_side D n1 n2 lo cnt = Ok R ->
+  sortedq (heights D) = true -> sortedq (heights R) = true.
+Proof.
+  intros D n1 n2 lo cnt R Hv Hc Hlo HR Hs.
+  destruct (valid_rows _ D Hv) as [Hlen _].
+  unfold split_side in HR.
+  destruct (Nat.ltb (length D) (n1 + n2 - 1)); [discriminate|].
+  rewrite firstn_all2 in HR by lia.
+  destruct (split_loop (n1 + n2) D (split_init lo cnt)) as [st|e] eqn:E; [|discriminate].
+  inversion HR; subst R.
+  destruct (split_loop_heights _ _ _ _ E) as (hs & Hh & Hsub). simpl in Hh. rewrite Hh.
+  apply sortedq_SS. apply (SS_sublist hs (heights D) Hsub). now apply sortedq_SS.
+Qed.
+
+Theorem split_dendrogram_valid : forall D n1 n2,
+  1 <= n1 -> 1 <= n2 -> valid (n1 + n2) D = true ->
+  exists Dr Dc, split_dendrogram D n1 n2 = Ok (Dr, Dc) /\ valid n1 Dr = true /\ valid n2 Dc = true.
+Proof.
+  intros D n1 n2 H1 H2 Hv.
+  destruct (split_side_valid D n1 n2 0 n1 Hv H1 ltac:(lia)) as (Dr & Hr & Hvr).
+  destruct (split_side_valid D n1 n2 n1 n2 Hv H2 ltac:(lia)) as (Dc & Hc & Hvc).
+  exists Dr, Dc. unfold split_dendrogram. rewrite Hr, Hc. auto.
+Qed.
+
+Theorem split_dendrogram_agrees : forall D n1 n2 Dr Dc,
+  1 <= n1 -> 1 <= n2 -> valid (n1 + n2) D = true -> split_dendrogram D n1 n2 = Ok (Dr, Dc) ->
+  own_view n1 Dr = restrict_view (n1 + n2) D 0 n1 /\ own_view n2 Dc = restrict_view (n1 + n2) D n1 n2.
+Proof.
+  intros D n1 n2 Dr Dc H1 H2 Hv Hs. unfold split_dendrogram in Hs.
+  destruct (split_side D n1 n2 0 n1) as [Dr'|e1] eqn:Er; [|discriminate].
+  destruct (split_side D n1 n2 n1 n2) as [Dc'|e2] eqn:Ec; [|discriminate].
+  inversion Hs; subst Dr' Dc'. split.
+  - apply (split_side_agrees D n1 n2 0 n1 Dr Hv H1 ltac:(lia) Er).
+  - apply (split_side_agrees D n1 n2 n1 n2 Dc Hv H2 ltac:(lia) Ec).
+Qed.
+
+Print Assumptions split_side_valid.
+Print Assumptions split_side_agrees.
+Print Assumptions split_side_sorted.
+Print Assumptions split_dendrogram_valid.
+Print Assumptions split_dendrogram_agrees.
